@@ -78,7 +78,7 @@ def detect(seed, props, tier="quick"):
             print(os.path.basename(os.path.abspath(seed)), p, "rc=%d" % rc, fails, viol[:2])
     finally:
         shutil.rmtree(d, ignore_errors=True)
-    with open(os.path.join(seed, "detect.json"), "w") as f:
+    with open(os.path.join(seed, "detect.json" if tier == "quick" else "detect_%s.json" % tier), "w") as f:
         json.dump(out_all, f, indent=1)
     return out_all
 
